@@ -30,24 +30,54 @@ import (
 const c25FindingCode = "C25-unavailable-code-not-retriable"
 
 // c25S3 wraps the repo's in-memory S3 client and counts mutating calls.
+type c25Attempt struct {
+	Op    string
+	Key   string
+	State broker.S3HealthState // the broker's own rating when the call started
+}
+
 type c25S3 struct {
 	*storage.MemoryS3Client
-	mu     sync.Mutex
-	writes []string
+	mu       sync.Mutex
+	writes   []string
+	state    func() broker.S3HealthState // optional
+	attempts []c25Attempt
+	failSeg  map[string]bool // "/topic/partition/" whose segment uploads fail
+	failIdx  map[string]bool // ... whose index uploads fail
 }
 
 func (s *c25S3) note(op, key string) {
+	var st broker.S3HealthState
+	if s.state != nil {
+		st = s.state()
+	}
 	s.mu.Lock()
 	s.writes = append(s.writes, op+" "+key)
+	s.attempts = append(s.attempts, c25Attempt{op, key, st})
 	s.mu.Unlock()
+}
+
+func c25KeyHits(set map[string]bool, key string) bool {
+	for frag := range set {
+		if strings.Contains(key, frag) {
+			return true
+		}
+	}
+	return false
 }
 func (s *c25S3) writeCount() int { s.mu.Lock(); defer s.mu.Unlock(); return len(s.writes) }
 func (s *c25S3) UploadSegment(ctx context.Context, key string, body []byte) error {
 	s.note("put-segment", key)
+	if c25KeyHits(s.failSeg, key) {
+		return errors.New("503 SlowDown (injected)")
+	}
 	return s.MemoryS3Client.UploadSegment(ctx, key, body)
 }
 func (s *c25S3) UploadIndex(ctx context.Context, key string, body []byte) error {
 	s.note("put-index", key)
+	if c25KeyHits(s.failIdx, key) {
+		return errors.New("503 SlowDown (injected)")
+	}
 	return s.MemoryS3Client.UploadIndex(ctx, key, body)
 }
 func (s *c25S3) DeleteSegment(ctx context.Context, key string) error {
@@ -398,4 +428,157 @@ func TestVF_C25_Witness(t *testing.T) {
 	st.KnownResult(c25FindingCode, still, fmt.Sprintf("state=%s codes=%v: %s", state, codes, fail))
 	st.NonTrivial("witness", still)
 	st.Sample(map[string]any{"state": state, "codes": fmt.Sprint(codes), "oracle": fail})
+}
+
+// TestVF_C25_MidRequest: the rating turns not-healthy WHILE a multi-partition produce request
+// is being served (an earlier partition's upload fails in S3 and few samples are in the
+// window). From then on no later partition of that request may be written or acknowledged.
+// Oracle: the S3 wrapper notes the broker's own rating at the start of every upload; an
+// upload for a partition that comes after the first faulted one, started while the rating
+// was not healthy, is a violation. Partitions with a fault of their own are not judged (their
+// segment and index uploads run concurrently and may flip the rating between each other).
+func TestVF_C25_MidRequest(t *testing.T) {
+	st := vfkit.NewStats("C25", "midrequest")
+	defer st.Flush()
+	c25Env(t)
+	rapid.Check(t, func(rt *rapid.T) {
+		st.Eval()
+		w, err := c25NewWorld()
+		if err != nil {
+			rt.Fatalf("harness setup: %v", err)
+		}
+		defer w.close()
+		w.h.autoCreateTopics = false
+		errWarn := rapid.IntRange(1, 10).Draw(rt, "errWarn/20")
+		errCrit := errWarn + rapid.IntRange(1, 20-errWarn).Draw(rt, "errCritExtra")
+		w.h.s3Health = broker.NewS3HealthMonitor(broker.S3HealthConfig{
+			Window: time.Hour, LatencyWarn: 10 * time.Minute, LatencyCrit: 20 * time.Minute, // real latencies cannot matter
+			ErrorWarn: float64(errWarn) / 20, ErrorCrit: float64(errCrit) / 20,
+		})
+		w.s3.state = w.h.s3Health.State
+		okBefore := rapid.IntRange(0, 4).Draw(rt, "okSamplesBefore")
+		for i := 0; i < okBefore; i++ {
+			w.h.recordS3Op("upload", time.Millisecond, nil)
+		}
+		all := []c25Part{{"orders", 0}, {"payments", 0}, {"payments", 1}}
+		perm := rapid.Permutation(all).Draw(rt, "order")
+		parts := perm[:rapid.IntRange(2, 3).Draw(rt, "nparts")]
+		// processing order = topics in first-seen order, partitions in order within a topic
+		var order []c25Part
+		seenTopic := map[string]bool{}
+		for _, p := range parts {
+			if seenTopic[p.Topic] {
+				continue
+			}
+			seenTopic[p.Topic] = true
+			for _, q := range parts {
+				if q.Topic == p.Topic {
+					order = append(order, q)
+				}
+			}
+		}
+		frag := func(p c25Part) string { return fmt.Sprintf("/%s/%d/", p.Topic, p.Part) }
+		w.s3.failSeg, w.s3.failIdx = map[string]bool{}, map[string]bool{}
+		firstFault := -1
+		faultDesc := []string{}
+		for i, p := range order {
+			roll := rapid.IntRange(0, 5).Draw(rt, "fault")
+			if i == 0 && roll > 3 {
+				roll = 1 // mostly fault the first partition: that is the interesting shape
+			}
+			if i > 0 && roll > 0 && roll < 4 && rapid.IntRange(0, 3).Draw(rt, "keepLaterFault") > 0 {
+				roll = 5 // later partitions are mostly fault-free so that they can be judged
+			}
+			switch roll {
+			case 0, 1:
+				w.s3.failSeg[frag(p)] = true
+				w.s3.failIdx[frag(p)] = true
+			case 2:
+				w.s3.failSeg[frag(p)] = true
+			case 3:
+				w.s3.failIdx[frag(p)] = true
+			default:
+				continue
+			}
+			if firstFault < 0 {
+				firstFault = i
+			}
+			faultDesc = append(faultDesc, fmt.Sprintf("%s-%d:%d", p.Topic, p.Part, roll))
+		}
+		pv := int16(rapid.IntRange(3, 9).Draw(rt, "produceVersion"))
+		acks := rapid.SampledFrom([]int16{-1, 1}).Draw(rt, "acks")
+		if w.h.s3Health.State() != broker.S3StateHealthy {
+			rt.Fatalf("harness: rating not healthy before the request")
+		}
+		w.s3.mu.Lock()
+		w.s3.attempts = nil
+		w.s3.mu.Unlock()
+		payload, err := w.produce(pv, acks, parts, "mid")
+		if err != nil {
+			rt.Fatalf("produce returned a connection-level error: %v", err)
+		}
+		resp := kmsg.NewPtrProduceResponse()
+		if err := c25Decode(pv, payload, resp); err != nil {
+			rt.Fatalf("produce response undecodable: %v", err)
+		}
+		codes := map[c25Part]int16{}
+		for _, tp := range resp.Topics {
+			for _, p := range tp.Partitions {
+				codes[c25Part{tp.Topic, p.Partition}] = p.ErrorCode
+			}
+		}
+		final := w.h.s3Health.State()
+		st.Class("final-state-" + string(final))
+		if firstFault < 0 {
+			st.Class("no-fault")
+			return
+		}
+		if firstFault == len(order)-1 {
+			st.Class("fault-only-on-last-partition")
+		}
+		w.s3.mu.Lock()
+		attempts := append([]c25Attempt(nil), w.s3.attempts...)
+		w.s3.mu.Unlock()
+		gatedLater := 0
+		for i := firstFault + 1; i < len(order); i++ {
+			p := order[i]
+			if w.s3.failSeg[frag(p)] || w.s3.failIdx[frag(p)] {
+				// its own segment and index uploads run concurrently: one may fail and flip the
+				// rating while the other is starting. Only partitions without a fault of their
+				// own are judged (their uploads cannot worsen the rating).
+				st.Class("later-partition-faulted-itself(not-judged)")
+				continue
+			}
+			wroteUnhealthy := ""
+			for _, a := range attempts {
+				if strings.Contains(a.Key, frag(p)) && a.State != broker.S3StateHealthy {
+					wroteUnhealthy = fmt.Sprintf("%s %s started while the broker rated S3 %q", a.Op, a.Key, a.State)
+					break
+				}
+			}
+			code, answered := codes[p]
+			if wroteUnhealthy != "" {
+				rt.Fatalf("partition %s-%d comes after %s-%d whose upload failed and turned the rating not healthy, yet it was still written (%s) and answered with code %d\nthresholds err %d/20 %d/20, %d ok samples before, request order %v, faults %v, acks %d v%d",
+					p.Topic, p.Part, order[firstFault].Topic, order[firstFault].Part, wroteUnhealthy, code, errWarn, errCrit, okBefore, order, faultDesc, acks, pv)
+			}
+			if !answered {
+				rt.Fatalf("partition %s-%d missing from the produce response", p.Topic, p.Part)
+			}
+			if code != 0 {
+				gatedLater++
+				if !kerr.IsRetriable(kerr.ErrorForCode(code)) && !(vfkit.Known(c25FindingCode) && code == protocol.UNKNOWN_SERVER_ERROR) {
+					rt.Fatalf("later partition %s-%d rejected with non-retriable code %d", p.Topic, p.Part, code)
+				}
+			}
+		}
+		if gatedLater > 0 {
+			st.Class("later-partition-gated-after-mid-request-flip")
+		}
+		if final != broker.S3StateHealthy && firstFault < len(order)-1 {
+			st.Class("rating-flipped-mid-request")
+			if st.NonTrivial(errWarn, errCrit, okBefore, fmt.Sprint(order), fmt.Sprint(faultDesc), acks, pv) {
+				st.Sample(map[string]any{"order": order, "faults": faultDesc, "ok_samples_before": okBefore, "err_warn_20ths": errWarn, "final_state": final, "codes": fmt.Sprint(codes)})
+			}
+		}
+	})
 }
